@@ -40,7 +40,7 @@ def validator_facts(fb, val):
             continue
         atoms = list(mf.at(r))
         if const_value(e) != 1:
-            atoms += conjuncts(e, True)
+            atoms += conjuncts(e, True, val)
         per_ret.append(atoms)
     if not per_ret:
         raise Broken("%s never returns true" % val.name)
